@@ -48,6 +48,7 @@ type Rec struct {
 	Must   bool
 	Loops  []int
 	Chain  []CallStep
+	Ret    *Val    // for call records: the callee's result
 	sub    *Result // internal: call node
 	subMay bool
 }
@@ -71,33 +72,36 @@ type activation struct {
 }
 
 type Interp struct {
-	P         *Program
-	Atoms     AtomTable
-	memo      map[string]*Result
-	stack     map[*ssa.Function]int
-	nextCell  int
-	nextAct   int
-	Loops     map[int]*LoopDesc
-	changed   bool
-	Layer     map[string]bool
-	CanonFn   *ssa.Function
-	RangePrm  map[*ssa.Function]bool
-	Opaque    map[*ssa.Function]bool
-	pathSt    map[string]*Val
-	globK     map[*ssa.Global]*Val
-	Notes     []string
-	Steps     int
-	MaxSteps  int
-	hintIDs   map[string]int
-	inLayer   int // >0 while evaluating inside the gadget layer entered from outside
-	Calls     int
-	ifaceImp  map[string][]*ssa.Function
-	frames    []*frame
-	fpVisit   map[*Cell]bool
-	pathStack []token.Pos
-	loopKeys  map[string]int
-	FnCalls   map[*ssa.Function]int
-	FnEvals   map[*ssa.Function]int
+	P             *Program
+	Atoms         AtomTable
+	memo          map[string]*Result
+	stack         map[*ssa.Function]int
+	nextCell      int
+	nextAct       int
+	Loops         map[int]*LoopDesc
+	changed       bool
+	Layer         map[string]bool
+	CanonFn       *ssa.Function
+	RangePrm      map[*ssa.Function]bool
+	Opaque        map[*ssa.Function]bool
+	pathSt        map[string]*Val
+	globK         map[*ssa.Global]*Val
+	Notes         []string
+	Steps         int
+	MaxSteps      int
+	hintIDs       map[string]int
+	inLayer       int // >0 while evaluating inside the gadget layer entered from outside
+	Calls         int
+	ifaceImp      map[string][]*ssa.Function
+	frames        []*frame
+	fpVisit       map[*Cell]bool
+	Recur         map[token.Pos]*Val // loop accumulator (by phi position) → its step expression
+	PathSensitive map[string]bool
+	TagFns        map[*ssa.Function]string // results of these functions are marked with their static call path
+	pathStack     []token.Pos
+	loopKeys      map[string]int
+	FnCalls       map[*ssa.Function]int
+	FnEvals       map[*ssa.Function]int
 	// OpaquePure: when evaluating from outside the gadget layer, calls into layer functions that are pure
 	// arithmetic (no constraint applied directly to an argument, result not a copy/selection of an argument,
 	// no store through an argument) are summarised as "depends on all arguments" instead of being descended.
@@ -131,6 +135,11 @@ func NewInterp(P *Program) *Interp {
 		Layer: map[string]bool{"goldilocks": true, "poseidon": true}, RangePrm: map[*ssa.Function]bool{}, Opaque: map[*ssa.Function]bool{},
 		pureCache: map[*ssa.Function]int{}, loopKeys: map[string]int{}, pathSt: map[string]*Val{}, globK: map[*ssa.Global]*Val{}, MaxSteps: 60_000_000, hintIDs: map[string]int{}, ifaceImp: map[string][]*ssa.Function{}}
 	in.CanonFn = P.Func("goldilocks", "(*Chip).RangeCheck")
+	in.PathSensitive = map[string]bool{"challenger": true}
+	in.TagFns = map[*ssa.Function]string{}
+	if f := P.Func("challenger", "(*Chip).GetChallenge"); f != nil {
+		in.TagFns[f] = "sq"
+	}
 	for fn := range P.AllFns {
 		if isRangePrimShape(fn) {
 			in.RangePrm[fn] = true
@@ -211,6 +220,7 @@ func (in *Interp) Flatten(res *Result) []*Rec {
 				// the call itself is a record (T4 MUST-CALL), except below a crossing into the gadget layer
 				if !inLayer || res.Layer {
 					c := *rec
+					c.Ret = rec.sub.Ret
 					c.sub = nil
 					c.Must, c.Loops, c.Chain = m, lp, chain
 					out = append(out, &c)
@@ -269,6 +279,12 @@ func keepAcrossLayer(r *Rec) bool {
 func (in *Interp) memoKey(fn *ssa.Function, args []*Val) string {
 	var sb strings.Builder
 	fmt.Fprintf(&sb, "%p", fn)
+	if in.PathSensitive[fnPkgShort(fn)] {
+		// transcript functions: one activation per static call path (their results are tagged by that path)
+		for _, p := range in.pathStack {
+			fmt.Fprintf(&sb, "/%d", p)
+		}
+	}
 	for _, a := range args {
 		fmt.Fprintf(&sb, ":%x", in.FP(a))
 	}
@@ -958,6 +974,7 @@ func (in *Interp) slice(act *activation, x *ssa.Slice) {
 func (in *Interp) phi(act *activation, b *ssa.BasicBlock, x *ssa.Phi) {
 	var r *Val
 	hdr := act.fi.HeaderOf[b]
+	var inits, backs []*Val
 	for i, e := range x.Edges {
 		v := in.val(act, e)
 		if v == nil {
@@ -966,12 +983,45 @@ func (in *Interp) phi(act *activation, b *ssa.BasicBlock, x *ssa.Phi) {
 		if hdr != nil && hdr.Blocks[b.Preds[i]] {
 			// value carried around the back edge: induction symbols of this loop are stale
 			v = in.staleIv(v, fmt.Sprintf("iv%d", in.loopID(act, hdr)))
+			backs = append(backs, v)
+		} else if hdr != nil {
+			inits = append(inits, v)
 		}
 		r = in.Join(r, v)
 	}
-	if r != nil {
-		in.set(act, x, r)
+	if r == nil {
+		return
 	}
+	// an accumulator of a loop is marked loopphi(init); its step expression (in which the accumulator appears as
+	// that same marker, so nothing nests) is kept in a side table for the rules that evaluate recurrences
+	if hdr != nil && len(inits) == 1 && len(backs) == 1 && isCircuitValue(x.Type()) {
+		c := *r
+		c.fpOK = false
+		init := inits[0]
+		if init.Ex != nil && init.exd >= maxExprDepth-1 {
+			ic := *init
+			ic.fpOK = false
+			ic.Ex, ic.exd = nil, 0
+			init = &ic
+		}
+		site := x.Pos()
+		if !site.IsValid() {
+			site = token.Pos(1<<30 + in.loopID(act, hdr)) // phis of compiler-made loops have no position
+		}
+		c.Ex = &Expr{Op: "loopphi", Args: []*Val{init}, Site: site}
+		c.exd = init.exd + 1
+		if in.Recur == nil {
+			in.Recur = map[token.Pos]*Val{}
+		}
+		in.Recur[site] = backs[0]
+		r = &c
+	}
+	in.set(act, x, r)
+}
+
+func isCircuitValue(t types.Type) bool {
+	s := t.String()
+	return strings.HasSuffix(s, "frontend.Variable") || strings.HasSuffix(s, "goldilocks.Variable") || strings.HasSuffix(s, "goldilocks.QuadraticExtensionVariable")
 }
 
 func (in *Interp) staleIv(v *Val, iv string) *Val {
